@@ -43,7 +43,7 @@ PROP_REPLAY = lambda w: {"code": """
 from pyxel.detectors import Geometry, Characteristics, Environment, WavelengthHandling
 objs = [Geometry(row=3, col=4, total_thickness=10.0, pixel_vert_size=2.0, pixel_horz_size=3.0, pixel_scale=1.5), Geometry(row=1, col=1),
         Characteristics(quantum_efficiency=0.5, charge_to_volt_conversion=1e-6, pre_amplification=2.0, full_well_capacity=1000, adc_bit_resolution=16, adc_voltage_range=(0.0, 5.0)),
-        Characteristics(), Environment(temperature=100.0, wavelength=600.0), Environment(), Environment(wavelength=WavelengthHandling(cut_on=400.0, cut_off=800.0, resolution=10))]
+        Characteristics(), Characteristics(adc_bit_resolution=12, adc_voltage_range=(5.0, 0.0)), Characteristics(adc_voltage_range=(3.3, -3.3)), Environment(temperature=100.0, wavelength=600.0), Environment(), Environment(wavelength=WavelengthHandling(cut_on=400.0, cut_off=800.0, resolution=10))]
 bad = []
 for o in objs:
     o2 = type(o).from_dict(o.to_dict())
